@@ -41,6 +41,10 @@ FINDINGS = {
             "what": "an array length cannot refer to a field of a preceding anonymous structure member "
                     "(struct { struct { uint8 n; }; uint8 d[n]; }: ExpressionParserError 'Unmatched token' at parse time, "
                     "although the field is a field of the structure)"},
+    "K13": {"props": ["C18"],
+            "what": "a structure declared before its member type is extended keeps the member's earlier size: stale size "
+                    "and offsets, the interpreted reader seeks to the stale offset (struct I { uint8 a; }; struct O "
+                    "{ uint8 x; I i; uint8 z; }; I.add_field('b', uint32): len(O) stays 3, O(dumps(v)).z is a byte of i.b)"},
     "K9": {"props": ["C04"],
            "what": "aligned structure used at an unaligned offset of a packed structure: its tail padding is computed "
                    "from the absolute stream position, so bytes consumed / dumped differ from len() and array elements "
